@@ -348,9 +348,9 @@ func (q c02Not) eval(s *c02Stream, r time.Time) bool  { return !q.A.eval(s, r) }
 var (
 	c02Addrs   = []string{"10.0.0.1", "10.0.0.2", "10.0.1.1", "192.168.0.1", "10.0.0.129", "fd00::1", "fd00::2", "fd00:0:1::1"}
 	c02Ports   = []uint16{80, 443, 1234, 8080, 31337}
-	c02Chunks  = []string{"foo", "bar", "GET /flag", "foobar", "baz", "xfoo", "ooo", "f", "oo", "flag{abc}"}
+	c02Chunks  = []string{"foo", "bar", "GET /flag", "foobar", "baz", "xfoo", "ooo", "f", "oo", "flag{abc}", "caaa", "xababab"}
 	c02AnchorRegexes = []string{"o$", "^foo", "\\bfoo", "bar\\b", "\\Aba", "z\\z", "^GET", "g\\b"}
-	c02Regexes = []string{"foo", "ba[rz]", "o+b", "f.o", "foo|baz", "(GET|PUT) /", "flag\\{[a-c]+\\}", "o{3}", "oba", "xyz", "fo+bar"}
+	c02Regexes = []string{"foo", "ba[rz]", "o+b", "f.o", "foo|baz", "(GET|PUT) /", "flag\\{[a-c]+\\}", "o{3}", "oba", "xyz", "fo+bar", "[ab]aa", "[ab]abab", "[xo]oo"}
 )
 
 func genPopulation(rng *rand.Rand, maxStreams int) (versions []*c02Stream, nIdx int) {
